@@ -4,6 +4,7 @@ import qv, qgen, srvgen
 from dnsgen import u16, u32, enc_name, hx
 from qgen import wirehex
 
+DIRTY_QTYPES = [1, 28, 2, 15, 33, 16, 99]
 LONG = [b"l" * 63, b"m" * 50, b"n" * 40, b"o" * 30, b"p" * 20, b"q" * 10]
 
 
@@ -169,7 +170,9 @@ def gen0(rng, tier, n=None):
         for nm in owners + rng.sample(names, min(len(names), 30)):
             server, their, limit = pick_limits(rng)
             cl = rng.choice([zz.cls for zz in zones])
-            qt = rng.choice(qgen.QTYPES)
+            # catalogs with RDATA that is not valid for its type: only questions whose answer does not copy such RDATA
+            # into the response (assumption of C02/C05: zone loading validates RDATA)
+            qt = rng.choice(DIRTY_QTYPES if any(zz.dirty for zz in zones) else qgen.QTYPES)
             yield f"{server} {their if their is not None else '-'} {cat} {hx(request(rng, qgen.flip(rng, nm, 0.1), qt, cl, their))}"
 
 
